@@ -50,7 +50,7 @@ def gen_flat_probe(rng):
             if not l.number:
                 used[l.name] = l.size
     return {"tensors": tensors, "known": [True] * len(tensors), "kw": kw, "variant": rng.choice(["consistent", "nondividing", "nondividing"]),
-            "ell": None, "axes": used}
+            "ells": [], "axes": used}
 
 
 def gen_problem(rng):
@@ -90,39 +90,44 @@ def gen_problem(rng):
         for l in leaves(t):
             if not l.number:
                 used[l.name] = l.size
-    # ellipsis: one named ellipsis axis "e..." expanded to k axes in some tensors
-    ell = None
-    if rng.random() < 0.25:
-        k = rng.randint(0, 3)
-        ell = {"name": "E", "sizes": [rng.choice([1, 2, 3, 5]) for _ in range(k)], "where": {}}
-        for ti in range(len(tensors)):
-            if rng.random() < 0.6:
-                ell["where"][ti] = rng.randint(0, len(tensors[ti]))
-        if not ell["where"]:
-            ell = None
+    # ellipses: named ellipsis axes "E...", "F..." expanded to k axes each, at root level of some tensors
+    # (two in one tensor make the expansion ambiguous unless another tensor or a keyword tuple decides it)
+    ells = []
+    if rng.random() < 0.35:
+        for nm in ["E", "F"][: rng.choice([1, 1, 2])]:
+            k = rng.randint(0, 3)
+            e = {"name": nm, "sizes": [rng.choice([1, 2, 3, 5]) for _ in range(k)], "where": {}}
+            for ti in range(len(tensors)):
+                if rng.random() < 0.6:
+                    e["where"][ti] = rng.randint(0, len(tensors[ti]))
+            if e["where"]:
+                ells.append(e)
     known = [rng.random() < 0.75 for _ in tensors]
     if not any(known):
         known[0] = True
     kw = {nm: sz for nm, sz in used.items() if rng.random() < 0.5}
-    variant = rng.choice(["consistent"] * 5 + ["contradict_kw", "contradict_dim", "nondividing"])
-    return {"tensors": tensors, "known": known, "kw": kw, "variant": variant, "ell": ell, "axes": used}
+    variant = rng.choice(["consistent"] * 5 + ["contradict_kw", "contradict_dim", "nondividing", "rank_changed"])
+    return {"tensors": tensors, "known": known, "kw": kw, "variant": variant, "ells": ells, "axes": used}
+
+
+def layout(p, ti):
+    """root-level items of tensor ti: ("dim", d) or ("ell", index into p["ells"])"""
+    items = [("dim", d) for d in p["tensors"][ti]]
+    ins = sorted(((e["where"][ti], k) for k, e in enumerate(p["ells"]) if ti in e["where"]), reverse=True)
+    for pos, k in ins:
+        items.insert(pos, ("ell", k))
+    return items
 
 
 def description(p):
-    parts = []
-    for ti, t in enumerate(p["tensors"]):
-        toks = [gencalls.p_dim(d) for d in t]
-        if p["ell"] and ti in p["ell"]["where"]:
-            toks.insert(p["ell"]["where"][ti], "E...")
-        parts.append(" ".join(toks))
-    return ", ".join(parts)
+    return ", ".join(" ".join(gencalls.p_dim(x) if kind == "dim" else p["ells"][x]["name"] + "..." for kind, x in layout(p, ti))
+                     for ti in range(len(p["tensors"])))
 
 
 def true_shape(p, ti):
-    sh = [gencalls.dsize(d) for d in p["tensors"][ti]]
-    if p["ell"] and ti in p["ell"]["where"]:
-        k = p["ell"]["where"][ti]
-        sh[k:k] = p["ell"]["sizes"]
+    sh = []
+    for kind, x in layout(p, ti):
+        sh += [gencalls.dsize(x)] if kind == "dim" else list(p["ells"][x]["sizes"])
     return tuple(sh)
 
 
@@ -142,6 +147,16 @@ def problem_instance(p, rng):
             j = rng.randrange(len(shapes[i]))
             s = list(shapes[i])
             s[j] = s[j] + rng.choice([1, 2, 3])
+            shapes[i] = tuple(s)
+    elif v == "rank_changed":
+        cands = [i for i, s in enumerate(shapes) if s is not None]
+        if cands:
+            i = rng.choice(cands)
+            s = list(shapes[i])
+            if s and rng.random() < 0.5:
+                s.pop(rng.randrange(len(s)))
+            else:
+                s.insert(rng.randint(0, len(s)), rng.choice([1, 2, 3]))
             shapes[i] = tuple(s)
     elif v == "nondividing":
         cands = [(i, j) for i, s in enumerate(shapes) if s for j in range(len(s)) if s[j] > 2]
@@ -169,40 +184,105 @@ def cexp(d, vid):
     return ["sum", [cexp(c, vid) for c in d.cs]]
 
 
-def equations(p, shapes, kw, vid):
-    """equation system of the instance; the ellipsis count is known from a tensor of known rank, else the system is not built"""
+def rank_system(p, shapes):
+    """equations over x_k = count_k + 1 >= 1 (one variable per ellipsis): for every tensor of known rank the counts of its
+    ellipses add up to rank - number of other root dims"""
     eqs = []
-    ell = p["ell"]
-    ell_count = None
-    if ell:
-        for ti, s in enumerate(shapes):
-            if s is not None and ti in ell["where"]:
-                c = len(s) - len(p["tensors"][ti])
-                if c < 0:
-                    return None, "rank"
-                if ell_count is not None and ell_count != c:
-                    return None, "rank"
-                ell_count = c
-        if ell_count is None:
-            return None, "free_rank"
     for ti, s in enumerate(shapes):
         if s is None:
             continue
-        dims = [cexp(d, vid) for d in p["tensors"][ti]]
-        if ell and ti in ell["where"]:
-            k = ell["where"][ti]
-            dims[k:k] = [["v", vid(f"E.{i}")] for i in range(ell_count)]
+        items = layout(p, ti)
+        es = [x for kind, x in items if kind == "ell"]
+        rest = len(s) - (len(items) - len(es))
+        if not es:
+            if rest != 0:
+                return None
+            continue
+        if rest < 0:
+            return None
+        eqs.append([["sum", [["v", k] for k in es]], rest + len(es)])
+    return eqs
+
+
+def rank_solutions(p, shapes, limit=40):
+    """all assignments of repetition counts that satisfy the rank equations (brute force, counts 0..max rank)"""
+    eqs = rank_system(p, shapes)
+    if eqs is None:
+        return []
+    used = sorted({t[1] for e, _ in eqs for t in e[1]})
+    top = max([len(s) for s in shapes if s is not None] + [0])
+    sols = []
+    for combo in itertools.product(range(top + 1), repeat=len(used)):
+        c = dict(zip(used, combo))
+        if all(sum(c[t[1]] + 1 for t in e[1]) == v for e, v in eqs):
+            sols.append(c)
+            if len(sols) >= limit:
+                break
+    return sols
+
+
+def equations(p, shapes, kw, vid, counts):
+    """size equations of the instance under the given repetition counts {ellipsis index: count}"""
+    eqs = []
+    for ti, s in enumerate(shapes):
+        if s is None:
+            continue
+        dims = []
+        for kind, x in layout(p, ti):
+            if kind == "dim":
+                dims.append(cexp(x, vid))
+            else:
+                if x not in counts:
+                    return None
+                dims += [["v", vid(f"{p['ells'][x]['name']}.{i}")] for i in range(counts[x])]
         if len(dims) != len(s):
-            return None, "rank"
+            return None
         for e, v in zip(dims, s):
             eqs.append([e, int(v)])
     for k, v in kw.items():
         eqs.append([["v", vid(k)], int(v)])
-    return eqs, ell_count
+    return eqs
+
+
+def op_request(p, shapes):
+    """einx.id with every tensor's root-level items reversed: (output description, arrays) or None when not applicable"""
+    if any(sh is None for sh in shapes) or sum(int(np.prod(sh, dtype=object)) for sh in shapes) > 6000:
+        return None
+    for t in p["tensors"]:
+        names = [l.name for l in leaves(t) if not l.number]
+        if len(names) != len(set(names)) or any(isinstance(d, Cat) for d in t) or any(l.number for l in leaves(t)):
+            return None
+    outs = []
+    for ti in range(len(p["tensors"])):
+        items = layout(p, ti)[::-1]
+        outs.append(" ".join(gencalls.p_dim(x) if kind == "dim" else p["ells"][x]["name"] + "..." for kind, x in items))
+    arrays = []
+    off = 0
+    for sh in shapes:
+        n = int(np.prod(sh))
+        arrays.append((np.arange(n, dtype=np.int64) + off).reshape(sh))
+        off += n
+    return ", ".join(outs), arrays
+
+
+def op_expected(p, arrays, counts):
+    """the result of the reversed rearrangement under the given repetition counts"""
+    res = []
+    for ti, x in enumerate(arrays):
+        blocks, pos = [], 0
+        for kind, it in layout(p, ti):
+            w = 1 if kind == "dim" else counts[it]
+            blocks.append(list(range(pos, pos + w)))
+            pos += w
+        if pos != x.ndim:
+            return None
+        perm = [d for blk in blocks[::-1] for d in blk]
+        res.append(np.transpose(x, perm))
+    return res
 
 
 def impl_solve(args):
-    desc, shapes, kw = args
+    desc, shapes, kw, op = args
     import einx
     tensors = [None if s is None else types.SimpleNamespace(shape=s) for s in shapes]
     out = {}
@@ -216,10 +296,16 @@ def impl_solve(args):
             out[fn] = ["ok", r]
         except BaseException as e:  # noqa: BLE001
             out[fn] = ["exc", common.classify_exc(e), common.exc_site(e), str(e)[:160]]
+    if op is not None:
+        try:
+            r = common.with_alarm(40, einx.id, desc + " -> " + op[0], *[np.array(a) for a in op[1]], **kw)
+            out["id"] = ["ok", [np.asarray(x) for x in (r if isinstance(r, tuple) else (r,))]]
+        except BaseException as e:  # noqa: BLE001
+            out["id"] = ["exc", common.classify_exc(e), common.exc_site(e), str(e)[:160]]
     return out
 
 
-def expected_from(p, sigma, names, ell_count):
+def expected_from(p, sigma, names, counts):
     """shapes and axes that follow from a full assignment (dict var id -> value)"""
     inv = {v: k for k, v in names.ids.items()}
     val = {inv[i]: v for i, v in sigma.items()}
@@ -233,67 +319,133 @@ def expected_from(p, sigma, names, ell_count):
         return int(np.prod(vs, dtype=object)) if isinstance(d, Fl) else sum(vs)
 
     shapes = []
-    for ti, t in enumerate(p["tensors"]):
-        sh = [ev(d) for d in t]
-        if p["ell"] and ti in p["ell"]["where"]:
-            k = p["ell"]["where"][ti]
-            sh[k:k] = [val.get(f"E.{i}") for i in range(ell_count or 0)]
+    for ti in range(len(p["tensors"])):
+        sh = []
+        for kind, x in layout(p, ti):
+            if kind == "dim":
+                sh.append(ev(x))
+            else:
+                sh += [val.get(f"{p['ells'][x]['name']}.{i}") for i in range(counts.get(x, 0))]
         shapes.append(sh)
-    axes = {k: v for k, v in val.items() if not k.startswith("E.")}
-    if p["ell"] and any(ti in p["ell"]["where"] for ti in range(len(p["tensors"]))):
-        axes["E"] = [val.get(f"E.{i}") for i in range(ell_count or 0)]
+    axes = {k: v for k, v in val.items() if "." not in k}
+    for k, e in enumerate(p["ells"]):
+        if k in counts:
+            axes[e["name"]] = [val.get(f"{e['name']}.{i}") for i in range(counts[k])]
     return shapes, axes
 
 
-def second_solution(eqs, nvars, sigma_partial, limit=4000):
-    """brute-force search for two solutions (values 1..9 for the open variables)"""
-    def ev(e, s):
-        if e[0] == "v":
-            return s[e[1]]
-        if e[0] == "n":
-            return e[1]
-        vs = [ev(c, s) for c in e[1]]
-        return int(np.prod(vs, dtype=object)) if e[0] == "prod" else sum(vs)
+def ev_eq(e, s):
+    if e[0] == "v":
+        return s[e[1]]
+    if e[0] == "n":
+        return e[1]
+    vs = [ev_eq(c, s) for c in e[1]]
+    return int(np.prod(vs, dtype=object)) if e[0] == "prod" else sum(vs)
+
+
+def all_solutions(eqs, nvars, sigma_partial, limit=6, hi=12):
+    """brute-force search for solutions of the size system (values 1..hi for the variables the reference solver left open)"""
     free = [x for x in range(nvars) if x not in sigma_partial]
     if not free or len(free) > 3:
-        return None
+        return []
     sols = []
-    for combo in itertools.product(range(1, 10), repeat=len(free)):
+    for combo in itertools.product(range(1, hi + 1), repeat=len(free)):
         s = dict(sigma_partial)
         s.update(zip(free, combo))
-        if all(ev(e, s) == v for e, v in eqs):
+        if all(ev_eq(e, s) == v for e, v in eqs):
             sols.append(s)
-            if len(sols) >= 2:
-                return sols
-    return None
+            if len(sols) >= limit:
+                break
+    return sols
+
+
+def gen_nonlinear(rng):
+    """systems in which lengths occur only in symmetric combinations (sum and product): several assignments satisfy them"""
+    a, b = Ax("a", rng.choice([1, 2, 3, 4, 5])), Ax("b", rng.choice([2, 3, 4, 5, 6]))
+    c = Ax("c", rng.choice([2, 3]))
+    combos = [lambda: Cat([a.copy(), b.copy()]), lambda: Fl([a.copy(), b.copy()]), lambda: Fl([b.copy(), a.copy()]),
+              lambda: Cat([b.copy(), a.copy()]), lambda: Fl([a.copy(), b.copy(), c.copy()]), lambda: Cat([Fl([a.copy(), b.copy()]), c.copy()])]
+    dims = [rng.choice(combos)() for _ in range(rng.randint(2, 3))]
+    if rng.random() < 0.5:
+        tensors = [dims]
+    else:
+        k = rng.randint(1, len(dims) - 1)
+        tensors = [dims[:k], dims[k:]]
+    used = {}
+    for t in tensors:
+        for l in leaves(t):
+            used[l.name] = l.size
+    kw = {"c": c.size} if "c" in used and rng.random() < 0.7 else {}
+    if rng.random() < 0.25:
+        kw["a"] = a.size          # breaks the symmetry: now everything follows by substitution
+    return {"tensors": tensors, "known": [True] * len(tensors), "kw": kw, "variant": "consistent", "ells": [], "axes": used}
 
 
 def run(ctx):
     import einx  # noqa: F401
-    n = 700 if ctx.tier == "quick" else 30000
-    probs = [gen_problem(ctx.rng) for _ in range(n)]
-    insts = [problem_instance(p, ctx.rng) for p in probs]
+    n = 800 if ctx.tier == "quick" else 30000
+    probs = [gen_nonlinear(ctx.rng) if ctx.rng.random() < 0.08 else gen_problem(ctx.rng) for _ in range(n)]
+    insts = []
+    for p in probs:
+        desc, shapes, kw = problem_instance(p, ctx.rng)
+        insts.append((desc, shapes, kw, op_request(p, shapes)))
     impl = common.pmap(impl_solve, insts)
-    names, systems, lines, idx = [], [], [], []
-    for k, (p, (desc, shapes, kw)) in enumerate(zip(probs, insts)):
-        vid = VarIds()
-        eqs, info = equations(p, shapes, kw, vid)
-        names.append(vid)
-        systems.append((eqs, info))
-        if eqs is not None:
-            idx.append(k)
-            lines.append(sx(["solve_propagate", eqs]))
-    outs = dict(zip(idx, ctx.model.batch(lines)))
-    stats = {"det": 0, "contra": 0, "unknown": 0, "rank_contradiction": 0, "free_rank": 0, "impl_ok": 0, "impl_fail": 0, "big_lengths": 0}
+    # ---- phase 1: repetition counts (rank equations through the reference solver) ----
+    rank_lines, rank_idx, status, counts_of, weak = [], [], {}, {}, set()
+    for k, (p, (desc, shapes, kw, op)) in enumerate(zip(probs, insts)):
+        eqs_r = rank_system(p, shapes)
+        if eqs_r is None:
+            status[k] = "rank_contra"
+        elif not eqs_r:
+            status[k] = "det" if not p["ells"] else "free_rank"
+            counts_of[k] = [{}]
+        else:
+            rank_idx.append(k)
+            rank_lines.append(sx(["solve_propagate", eqs_r]))
+    for k, m in zip(rank_idx, ctx.model.batch(rank_lines)):
+        p, (desc, shapes, kw, op) = probs[k], insts[k]
+        inrank = {t[1] for e, _ in rank_system(p, shapes) for t in e[1]}
+        if m == "contra":
+            status[k] = "rank_contra"
+            continue
+        if m[0] == "det":
+            sols = [{int(x): int(v) - 1 for x, v in m[1]}]
+        else:
+            sols = rank_solutions(p, shapes)          # exhaustive: a count never exceeds the rank
+            weak.add(k)                               # unique only by an argument other than substitution: einx may give up
+        if not sols:
+            status[k] = "rank_contra"
+        elif len(inrank) < len(p["ells"]):
+            status[k] = "free_rank"                   # an ellipsis occurs only in tensors of unknown rank
+        elif len(sols) == 1:
+            status[k], counts_of[k] = "det", sols
+        else:
+            status[k], counts_of[k] = "ambiguous", sols[:6]
+    # ---- phase 2: lengths (size equations through the reference solver) ----
+    lines, owner, names, systems = [], [], {}, {}
+    for k, (p, (desc, shapes, kw, op)) in enumerate(zip(probs, insts)):
+        if status[k] not in ("det", "ambiguous"):
+            continue
+        for j, cnt in enumerate(counts_of[k]):
+            vid = VarIds()
+            eqs = equations(p, shapes, kw, vid, cnt)
+            names[(k, j)], systems[(k, j)] = vid, eqs
+            if eqs is not None:
+                lines.append(sx(["solve_propagate", eqs]))
+                owner.append((k, j))
+    outs = dict(zip(owner, ctx.model.batch(lines)))
+    stats = {"det": 0, "contra": 0, "unknown": 0, "rank_contradiction": 0, "free_rank": 0, "ambiguous_rank": 0, "ambiguous_rank_with_two_full_solutions": 0,
+             "several_solutions_found": 0, "op_level_calls": 0, "impl_ok": 0, "impl_fail": 0, "big_lengths": 0}
     recheck, recheck_owner = [], []
     for k, (p, inst, r) in enumerate(zip(probs, insts, impl)):
-        desc, shapes, kw = inst
-        eqs, info = systems[k]
+        desc, shapes, kw, op = inst
         rec = {"description": desc, "shapes": shapes, "kwargs": kw, "variant": p["variant"]}
         ctx.distinct.add(desc + "|" + json.dumps(shapes) + "|" + json.dumps(kw, sort_keys=True))
-        if any(v >= 2 ** 31 for s in shapes if s for v in s) or any(v >= 2 ** 31 for v in kw.values()):
+        if any(v >= 2 ** 31 for sh in shapes if sh for v in sh) or any(v >= 2 ** 31 for v in kw.values()):
             stats["big_lengths"] += 1
-        ss, sa, sm = r["solve_shapes"], r["solve_axes"], r["matches"]
+        ss, sa, sm, so = r["solve_shapes"], r["solve_axes"], r["matches"], r.get("id")
+        if so is not None:
+            stats["op_level_calls"] += 1
         for fn, res in r.items():
             if res[0] == "exc" and res[1] not in ("RankError", "AxisSizeError"):
                 ctx.report({"kind": "unexpected_exception", "fn": fn, "exc": res[1], "site": res[2]}, {**rec, "message": res[3]})
@@ -301,24 +453,63 @@ def run(ctx):
         stats["impl_ok" if ok else "impl_fail"] += 1
         if (sm[0] == "ok" and bool(sm[1]) != ok):
             ctx.report({"kind": "matches_disagrees_with_solve_shapes"}, {**rec, "matches": sm, "solve_shapes": ss})
-        if eqs is None:
-            if info == "rank":
-                stats["rank_contradiction"] += 1
-                if ok:
-                    ctx.report({"kind": "accepts_rank_contradiction"}, {**rec, "reported": ss[1]})
-            else:
-                stats["free_rank"] += 1
+        st = status[k]
+        if st == "rank_contra":
+            stats["rank_contradiction"] += 1
+            for fn, res in (("solve_shapes", ss), ("id", so)):
+                if res is not None and res[0] == "ok":
+                    ctx.report({"kind": "accepts_rank_contradiction", "fn": fn}, {**rec, "reported": str(res[1])[:300]})
             continue
-        m = outs[k]
+        if st == "free_rank":
+            stats["free_rank"] += 1
+            continue
+        if st == "ambiguous":
+            stats["ambiguous_rank"] += 1
+            full = []
+            for j, cnt in enumerate(counts_of[k]):
+                m = outs.get((k, j))
+                if m is not None and m != "contra" and m[0] == "det":
+                    sigma = {int(x): int(v) for x, v in m[1]}
+                    sh_j, ax_j = expected_from(p, sigma, names[(k, j)], cnt)
+                    if not any(v is None for sh in sh_j for v in sh):
+                        full.append((cnt, sh_j, ax_j))
+            if len(full) >= 2:
+                # two complete assignments (each verified by the reference solver) with different repetition counts
+                stats["ambiguous_rank_with_two_full_solutions"] += 1
+                wit = [{"counts": {p["ells"][i]["name"]: c for i, c in f[0].items()}, "shapes": f[1], "axes": f[2]} for f in full[:2]]
+                if sa[0] == "ok":
+                    ctx.report({"kind": "reports_a_value_that_differs_between_solutions", "fn": "solve_axes", "what": "ellipsis_expansion"},
+                               {**rec, "reported": sa[1], "two_solutions": wit})
+                if ok and any(f[1] != full[0][1] for f in full[1:]):
+                    ctx.report({"kind": "reports_a_value_that_differs_between_solutions", "fn": "solve_shapes", "what": "ellipsis_expansion"},
+                               {**rec, "reported": ss[1], "two_solutions": wit})
+                if so is not None and so[0] == "ok":
+                    exps = [op_expected(p, op[1], f[0]) for f in full]
+                    if any(e is not None and exps[0] is not None and any(not np.array_equal(x, y) for x, y in zip(e, exps[0])) for e in exps[1:]):
+                        ctx.report({"kind": "result_depends_on_an_ambiguous_expansion", "fn": "id"},
+                                   {**rec, "output": op[0], "two_solutions": wit, "returned_shapes": [list(x.shape) for x in so[1]]})
+            elif all(outs.get((k, j)) == "contra" for j in range(len(counts_of[k]))) and len(counts_of[k]) < 6:
+                if ok:
+                    ctx.report({"kind": "accepts_unsatisfiable_system", "variant": p["variant"]}, {**rec, "reported": ss[1]})
+            continue
+        cnt = counts_of[k][0]
+        eqs, m = systems[(k, 0)], outs.get((k, 0))
+        if eqs is None or m is None:
+            continue
         if m == "contra":
             stats["contra"] += 1
-            if ok:
-                ctx.report({"kind": "accepts_unsatisfiable_system", "variant": p["variant"]}, {**rec, "reported": ss[1], "equations": eqs})
+            for fn, res in (("solve_shapes", ss), ("id", so)):
+                if res is not None and res[0] == "ok":
+                    ctx.report({"kind": "accepts_unsatisfiable_system", "variant": p["variant"], "fn": fn}, {**rec, "reported": str(res[1])[:300], "equations": eqs})
             continue
         sigma = {int(x): int(v) for x, v in m[1]}
+        if so is not None and so[0] == "ok":
+            e = op_expected(p, op[1], cnt)
+            if e is None or len(e) != len(so[1]) or any(not np.array_equal(x, y) for x, y in zip(e, so[1])):
+                ctx.report({"kind": "operation_uses_wrong_expansion", "fn": "id"}, {**rec, "output": op[0], "returned_shapes": [list(x.shape) for x in so[1]]})
         if m[0] == "det":
             stats["det"] += 1
-            exp_shapes, exp_axes = expected_from(p, sigma, names[k], info)
+            exp_shapes, exp_axes = expected_from(p, sigma, names[(k, 0)], cnt)
             if any(v is None for sh in exp_shapes for v in sh):
                 # an axis occurs only in tensors of unknown shape and has no keyword: it is free, the reported
                 # shapes differ between solutions, so the call has to fail
@@ -327,7 +518,8 @@ def run(ctx):
                     ctx.report({"kind": "accepts_underdetermined_system"}, {**rec, "reported": ss[1]})
                 continue
             if not ok:
-                ctx.report({"kind": "rejects_determined_system", "exc": ss[1], "site": ss[2]}, {**rec, "expected_shapes": exp_shapes, "message": ss[3]})
+                if k not in weak:
+                    ctx.report({"kind": "rejects_determined_system", "exc": ss[1], "site": ss[2]}, {**rec, "expected_shapes": exp_shapes, "message": ss[3]})
             else:
                 if ss[1] != exp_shapes:
                     ctx.report({"kind": "wrong_shapes"}, {**rec, "expected": exp_shapes, "reported": ss[1]})
@@ -336,36 +528,53 @@ def run(ctx):
                     for a, v in exp_axes.items():
                         if a in got and got[a] != v and not (isinstance(v, list) and list(np.ravel(got[a])) == v):
                             ctx.report({"kind": "wrong_axis_value"}, {**rec, "axis": a, "expected": v, "reported": got[a]})
+            if so is not None and so[0] != "ok" and k not in weak:
+                ctx.report({"kind": "rejects_determined_system", "fn": "id", "exc": so[1], "site": so[2]}, {**rec, "output": op[0], "message": so[3]})
         else:
             stats["unknown"] += 1
+            # several assignments may satisfy the constraints: whatever is reported must be the same in all of them
+            sols = all_solutions(eqs, len(names[(k, 0)].ids), sigma)
+            if len(sols) >= 2:
+                stats["several_solutions_found"] += 1
+                exp = [expected_from(p, s2, names[(k, 0)], cnt) for s2 in sols]
+                wit = [{"shapes": e[0], "axes": e[1]} for e in exp[:2]]
+                if ok and any(e[0] != exp[0][0] for e in exp[1:]):
+                    ctx.report({"kind": "reports_a_value_that_differs_between_solutions", "fn": "solve_shapes", "what": "length"},
+                               {**rec, "reported": ss[1], "two_solutions": wit})
+                if sa[0] == "ok":
+                    differ = sorted(a for a in exp[0][1] if any(e[1].get(a) != exp[0][1].get(a) for e in exp[1:]))
+                    hit = [a for a in differ if a in sa[1]]
+                    if hit:
+                        ctx.report({"kind": "reports_a_value_that_differs_between_solutions", "fn": "solve_axes", "what": "length"},
+                                   {**rec, "axes": hit, "reported": sa[1], "two_solutions": wit})
             if ok:
                 # whatever is reported must satisfy every constraint: add it and re-run the reference solver
                 extra = []
-                for ti, s in enumerate(ss[1]):
+                for ti, sh in enumerate(ss[1]):
                     if shapes[ti] is None:
-                        dims = [cexp(d, names[k]) for d in p["tensors"][ti]]
-                        if p["ell"] and ti in p["ell"]["where"]:
-                            kk = p["ell"]["where"][ti]
-                            dims[kk:kk] = [["v", names[k](f"E.{i}")] for i in range(info or 0)]
-                        if len(dims) == len(s):
-                            extra += [[e, int(v)] for e, v in zip(dims, s)]
+                        dims = []
+                        for kind, x in layout(p, ti):
+                            dims += [cexp(x, names[(k, 0)])] if kind == "dim" else [["v", names[(k, 0)](f"{p['ells'][x]['name']}.{i}")] for i in range(cnt.get(x, 0))]
+                        if len(dims) == len(sh):
+                            extra += [[e, int(v)] for e, v in zip(dims, sh)]
+                if sa[0] == "ok":
+                    for a, v in sa[1].items():
+                        if a in names[(k, 0)].ids and isinstance(v, int):
+                            extra.append([["v", names[(k, 0)](a)], int(v)])
                 recheck.append(sx(["solve_propagate", eqs + extra]))
-                recheck_owner.append((rec, ss[1], eqs, len(names[k].ids), sigma))
+                recheck_owner.append((rec, ss[1], eqs))
     routs = ctx.model.batch(recheck)
-    for (rec, reported, eqs, nvars, sigma), m in zip(recheck_owner, routs):
+    for (rec, reported, eqs), m in zip(recheck_owner, routs):
         if m == "contra":
             ctx.report({"kind": "reported_values_violate_constraints"}, {**rec, "reported": reported, "equations": eqs})
-            continue
-        sols = second_solution(eqs, nvars, sigma)
-        if sols:
-            # two solutions exist; a violation only if they differ on a reported shape
-            pass
     for p, inst in list(zip(probs, insts))[:4]:
         ctx.sample({"description": inst[0], "shapes": inst[1], "kwargs": inst[2], "variant": p["variant"]})
     ctx.coverage.update({
-        "evaluations": len(probs) * 3,
+        "evaluations": len(probs) * 3 + stats["op_level_calls"],
         "rule": "generated (description, shapes-or-None, keyword subset) instances; variants consistent / contradicted keyword / contradicted "
-                "dimension / non-dividing; 20% with lengths up to 2**40; 25% with one named ellipsis; distinct_nontrivial = distinct instances",
+                "dimension / non-dividing; 20% with lengths up to 2**40; 35% with one or two named ellipses (possibly both in one tensor); 8% "
+                "systems of sums and products with several solutions; einx.id with every tensor's root items reversed as operation-level probe; "
+                "distinct_nontrivial = distinct instances",
         "input_distribution": stats,
     })
 
@@ -376,7 +585,7 @@ def replay(ctx, path):
         print(json.dumps(data)[:2000])
         return 1
     import einx  # noqa: F401
-    r = impl_solve((data["description"], [tuple(s) if s is not None else None for s in data["shapes"]], data["kwargs"]))
+    r = impl_solve((data["description"], [tuple(s) if s is not None else None for s in data["shapes"]], data["kwargs"], None))
     print(json.dumps({k: data.get(k) for k in ("tags", "description", "shapes", "kwargs", "expected", "expected_shapes", "reported")}, indent=1))
     print("now:", r)
     print(f"VIOLATION property=C02 replay={path}")
